@@ -491,6 +491,9 @@ type Stream struct {
 	CountWidth int      `json:"count_width"` // width class of the block-list count varint (0 = minimal)
 	Chunks     []int    `json:"chunks"`      // sizes of the short reads of the chunked reader, cycled
 	Trailing   pbt.Hex  `json:"trailing"`    // bytes after the last transaction; must stay unread
+	// round 9: reader behaviours (empty reads, the last bytes together with io.EOF, a non-EOF
+	// failure after k bytes, ...) played by gen.C09NewScriptReader over the same bytes
+	Scripts []gen.C09Script `json:"scripts,omitempty"`
 }
 
 // countingReader counts what the library is actually handed.
@@ -618,20 +621,43 @@ func checkStream(ctx *pbt.Ctx, c Stream) error {
 		off += used
 	}
 	// (*Tx).ReadFrom over three kinds of reader
-	readers := []struct {
-		name string
-		mk   func(b []byte) io.Reader
-	}{
-		{"bytes.Reader", func(b []byte) io.Reader { return bytes.NewReader(b) }},
-		{"iotest.OneByteReader", func(b []byte) io.Reader { return iotest.OneByteReader(bytes.NewReader(b)) }},
-		{"chunked reader", func(b []byte) io.Reader { return &chunkReader{b: b, chunks: c.Chunks} }},
+	readers := []readerKind{
+		{"bytes.Reader", func(b []byte) io.Reader { return bytes.NewReader(b) }, nil},
+		{"iotest.OneByteReader", func(b []byte) io.Reader { return iotest.OneByteReader(bytes.NewReader(b)) }, nil},
+		{"chunked reader", func(b []byte) io.Reader { return &chunkReader{b: b, chunks: c.Chunks} }, nil},
+		{"iotest.DataErrReader", func(b []byte) io.Reader { return iotest.DataErrReader(bytes.NewReader(b)) }, nil},
+		{"iotest.HalfReader", func(b []byte) io.Reader { return iotest.HalfReader(bytes.NewReader(b)) }, nil},
+	}
+	if len(c.Scripts) > 4 {
+		ctx.Discard("invalid case: scripts")
+		return nil
+	}
+	for i := range c.Scripts {
+		if !c.Scripts[i].Valid() {
+			ctx.Discard("invalid case: scripts")
+			return nil
+		}
+		readers = append(readers, scriptedKind(ctx, c.Scripts[i]))
 	}
 	for _, rk := range readers {
 		cr := &countingReader{r: rk.mk(data)}
+		lim := int64(rk.limit(len(data)))
 		var want int64
 		for i := range c.Txs {
 			tx := &bt.Tx{}
 			n, err := tx.ReadFrom(cr)
+			if want+int64(len(encs[i])) > lim {
+				// the reader fails before this transaction is complete: it cannot be accepted
+				if err == nil {
+					return fmt.Errorf("(*Tx).ReadFrom on %s accepted transaction %d of %d (reported %d bytes) although the reader handed over only %d bytes and the transaction ends at %d", rk.name, i, len(c.Txs), n, cr.n, want+int64(len(encs[i])))
+				}
+				ctx.Label("reader failed inside a transaction: rejected")
+				break
+			}
+			if err != nil && errWithLastBytes(rk.sc, int(want)+len(encs[i]), len(data)) {
+				ctx.Label("reader failed together with the last bytes of a transaction: rejected")
+				break
+			}
 			if err != nil {
 				return fmt.Errorf("(*Tx).ReadFrom on %s, transaction %d of %d: %v", rk.name, i, len(c.Txs), err)
 			}
@@ -654,6 +680,16 @@ func checkStream(ctx *pbt.Ctx, c Stream) error {
 		cr := &countingReader{r: rk.mk(block)}
 		var txs bt.Txs
 		n, err := txs.ReadFrom(cr)
+		if rk.limit(len(block)) < len(prefix)+len(cat) {
+			if err == nil {
+				return fmt.Errorf("(*Txs).ReadFrom on %s accepted a list (reported %d bytes, %d elements) although the reader handed over only %d of its %d bytes", rk.name, n, len(txs), cr.n, len(prefix)+len(cat))
+			}
+			ctx.Label("reader failed inside the list: rejected")
+			continue
+		}
+		if err != nil && errWithLastBytes(rk.sc, len(prefix)+len(cat), len(block)) {
+			continue
+		}
 		if err != nil {
 			return fmt.Errorf("(*Txs).ReadFrom on %s (%d transactions, count varint %x): %v", rk.name, len(c.Txs), prefix, err)
 		}
@@ -698,6 +734,11 @@ func genStream(t *rapid.T) Stream {
 	if rapid.Bool().Draw(t, "has_trailing") {
 		c.Trailing = gen.Bytes(t, rapid.IntRange(1, 12).Draw(t, "ntrail"), "trailing")
 	}
+	total := len(c.Trailing)
+	for i, m := range c.Txs {
+		total += len(ref.Encode(m, c.Ext[i]))
+	}
+	c.Scripts = []gen.C09Script{gen.C09GenScript(t, total, false), gen.C09GenScript(t, total+1, true)}
 	return c
 }
 
@@ -716,6 +757,8 @@ func TestStream(t *testing.T) {
 type Bytes struct {
 	Op   string  `json:"op"` // how the bytes were derived (informational)
 	Data pbt.Hex `json:"data"`
+	// round 9: (*Tx).ReadFrom also reads the bytes from a reader that plays this behaviour
+	Script *gen.C09Script `json:"script,omitempty"`
 }
 
 // maxClaim walks the transaction layout and returns the largest value any
@@ -916,6 +959,16 @@ func checkBytes(ctx *pbt.Ctx, c Bytes) error {
 			return err
 		}
 	}
+	if err := checkBytesHex(ctx, data, d, rerr); err != nil {
+		return err
+	}
+	if c.Script != nil {
+		if !c.Script.Valid() {
+			ctx.Discard("invalid case: script")
+			return nil
+		}
+		return checkBytesScripted(ctx, data, *c.Script)
+	}
 	return nil
 }
 
@@ -991,7 +1044,8 @@ func genBytes(t *rapid.T) Bytes {
 		data = append(data, rapid.SampledFrom([]byte{0, 0, 1, 1, 2, 0xfd}).Draw(t, "nin"))
 		data = append(data, gen.BytesUpTo(t, 120, "rest")...)
 	}
-	return Bytes{Op: op, Data: data}
+	sc := gen.C09GenScript(t, len(data), true)
+	return Bytes{Op: op, Data: data, Script: &sc}
 }
 
 func TestBytes(t *testing.T) {
